@@ -194,7 +194,8 @@ def checkThumb (hashName : String) (cert0 : Option Bytes) (thumb : Option Bytes)
 /-- jws.go:546-555 -/
 def critKnown (crit : List String) : Bool := crit.all (fun p => knownParams.contains p)
 
-/-- jws.go:478-559: the typed fields, read from the members of the object -/
+/-- jws.go:478-559: the typed fields, read from the members of the object by their EXACT names
+    (`Wire.lookup`); `raw` is filled in by `decodeHeader` -/
 def decodeFields (kvs : KVs) : PO Header := do
   let alg ← getString kvs jwa.AlgorithmKey
   let jku ← getURL kvs jwa.JWKSetURLKey
@@ -220,7 +221,7 @@ def decodeFields (kvs : KVs) : PO Header := do
   let critL := crit.getD []
   if !critKnown critL then PO.fail "parse"
   else pure (
-    { raw := .obj kvs, alg := alg.getD "", jku := jku, jwk := jwk, kid := kid.getD "", x5u := x5u,
+    { raw := .null, alg := alg.getD "", jku := jku, jwk := jwk, kid := kid.getD "", x5u := x5u,
       x5c := x5c, x5t := x5t, x5tS256 := x5tS256, typ := typ.getD "", cty := cty.getD "",
       crit := critL,
       nb64 := match b64 with | some b => !b | none => false } : Header)
